@@ -376,6 +376,17 @@ def builtin (f : String) (args : List Val) : Option (R Val) :=
     match args with
     | .str s :: _ => some (.ok (.str ("error: " ++ s)))
     | _ => some (.stuck "errors.New")
+  else if f = "fmt.Sprintf" then
+    -- the formatted text is not modelled: a string determined by the format (pure, no effect)
+    match args with
+    | .str s :: _ => some (.ok (.str s))
+    | _ => some (.stuck "fmt.Sprintf")
+  else if f = "assertString2" then
+    -- `s, ok := v.(string)`: a string is itself, anything else (a nil interface, another type) gives ("", false)
+    match args with
+    | [.str s] => some (.ok (.tup [.str s, .bool true]))
+    | [_] => some (.ok (.tup [.str "", .bool false]))
+    | _ => some (.stuck "type assertion")
   else
     match args with
     | [.int i] => (convert f i).map fun j => .ok (.int j)
